@@ -6,7 +6,11 @@ Implementation-level oracle (model-free), on real subprocess runs of bin/dippy-h
     after / after-mcp rule that matches - recomputed here from single-rule evaluations of the real
     matcher, so the "last wins / empty message silences" logic is checked independently of the loop;
   * any other hook_event_name (missing, other names, wrong types): stdout with the configuration as
-    given == stdout with every after / after-mcp line removed.
+    given == stdout with every after / after-mcp line removed;
+  * which kind of event this is is read at the host-written level only (harness/hookplace.py): on PostToolUse payloads a key
+    named like any host field (hook_event_name: PreToolUse, permission_mode: bypass..., tool_name, command, cwd, tool_input)
+    anywhere the host does not write it - tool_input, tool_response, other members, near-miss spellings - and on pre-execution
+    payloads a hook_event_name: PostToolUse decoy, leave the output byte-for-byte what it is without the key.
 Correspondence: Model/Hook.v main == the real process on the same runs."""
 from __future__ import annotations
 
@@ -19,6 +23,7 @@ from pathlib import Path
 from . import core, lib
 from . import hookgen as g
 from . import hooklib as H
+from . import hookplace as P
 
 TRUSTED = [
     "Coq 8.16.1 kernel and its VM",
@@ -131,20 +136,21 @@ def expected_feedback(sc, c, value):
     cwd = value.get("cwd") or (ti.get("cwd") if isinstance(ti, dict) else None) or sc.proj(c.proj_cfg)
     if not isinstance(cwd, str):
         return None
-    mode = H.expected_mode(c, value)
     tn = value.get("tool_name")
     try:
         cfg = H.real_load_config(sc, c, cwd)
     except Exception:  # noqa: BLE001
         return None
-    if mode != "cursor" and isinstance(tn, str) and tn.startswith("mcp__"):
+    # the SHAPE of the payload says where the command is (C12: a forced mode never does): with a tool_name it is a tool call
+    # (tool_input.command of a shell tool, or an MCP tool), without one it is Cursor's top-level command
+    if "tool_name" in value and isinstance(tn, str) and tn.startswith("mcp__"):
         last = None
         for r in cfg.after_mcp_rules:
             if fnmatch.fnmatch(tn, r.pattern):
                 last = r
         rules_hit = last
     else:
-        if mode == "cursor":
+        if "tool_name" not in value and "command" in value:
             cmd = value.get("command", "")
         elif isinstance(tn, str) and tn in H.SHELL_TOOLS and isinstance(ti, dict):
             cmd = ti.get("command", "")
@@ -172,7 +178,12 @@ def run(tier, seed, replay=None):
     hm = None
     xcheck = []
     try:
-        cases = [H.replay_case(sc, replay)] if replay else build_cases(sc, tier, rng)
+        placed = None
+        if replay and replay.get("twin_case"):
+            placed = P.replay_pair(sc, out, replay, "post")
+            cases = []
+        else:
+            cases = [H.replay_case(sc, replay)] if replay else build_cases(sc, tier, rng)
         # the metamorphic twin of every non-PostToolUse case: same run without after / after-mcp lines
         twins = {}
         for c in cases:
@@ -187,13 +198,26 @@ def run(tier, seed, replay=None):
                 twins[id(c)] = t
         H.run_cases(sc, cases + list(twins.values()))
         hm = H.HookModel(sc)
+        extra = []
+        if placed is not None:
+            extra = [placed]
+        elif not replay:
+            extra, _ = P.run_placement(sc, out, tier, "post", hm=hm, sample_limit=50, events=("post",), tag="placement_sweep_post")
+            more, _ = P.run_placement(sc, out, tier, "post", hm=hm, sample_limit=30, events=("pre",), fields=("hook_event_name",),
+                                      tag="placement_sweep_pre_event_decoys")
+            extra = extra + more
+        for c in extra:
+            kind, value = H.read_stdin(c)
+            c.is_post = kind == "ok" and isinstance(value, dict) and isinstance(value.get("hook_event_name"), str) \
+                and value.get("hook_event_name") == "PostToolUse"
+        cases = cases + extra
 
         def bad(what, sig, c, **more):
             out.violations.append({"kind": "post", "what": what, **H.describe(c, sc), **more, "signature_text": f"{sig} | {c.label}"})
 
         for idx, c in enumerate(cases):
             out.case(c.key(), nontrivial=bool((c.user_cfg and "after" in c.user_cfg) or (c.proj_cfg and "after" in c.proj_cfg)))
-            out.count("stream", c.label)
+            out.count("stream", "place" if c.label.startswith("place:") else c.label)
             items = H.parse_stdout(c.out)
             kind, value = H.read_stdin(c)
             if idx % 61 == 0:
@@ -273,5 +297,8 @@ def run(tier, seed, replay=None):
         "prefix, quoted, alias, redirect, unparseable, empty, blank, non-str JSON; MCP names; 15 hook_event_name values (other names, "
         "case / space variants, wrong JSON types); bypass modes, other tools, faults in match_after / tokenize / match_after_mcp / "
         "load_config, ASCII-only stdout, 200 kB commands and nesting 100000; every non-PostToolUse case is run a second time with the "
-        "after lines removed. distinct = distinct (stdin, configs, fault); non-trivial = the configuration contains an after rule")
+        "after lines removed; field placement (harness/hookplace.py): PostToolUse payloads of every host x every host field as a decoy "
+        "key (tool_input, deeper, tool_response, other object, array, nested copy, near-miss spellings, duplicate member) x top-level "
+        "state x forced mode, and hook_event_name decoys on pre-execution payloads - in-process with confirmation by real processes, "
+        "plus a covering sample as real processes. distinct = distinct (stdin, configs, fault); non-trivial = the configuration contains an after rule")
     return out
